@@ -177,8 +177,10 @@ def call_all(closures, n):
     return out
 
 
-def solve_observed(P, method):
+def solve_observed(P, method, x0=None):
     kw = {} if method == "auto" else {"method": method}
+    if x0 is not None:
+        kw["x0"] = np.array(x0, dtype=float)
     with warnings.catch_warnings():
         warnings.simplefilter("ignore")
         with Seam() as s:
@@ -228,6 +230,8 @@ class Driver:
             return out
         out += [("evaluate",), ("compile", "default"), ("compile", "iterative"), ("call",)]
         out += [("solve", m) for m in ("auto", "SLSQP", "trust-constr", "L-BFGS-B")]
+        # warm start from the point the previous (environment-answered) solve ended at: the all-ones point
+        out += [("solve", m, "x0=ones") for m in ("SLSQP", "L-BFGS-B")]
         return out
 
     def current(self, idx):
@@ -294,8 +298,9 @@ class Driver:
                                           values=self.current(idx), compiled_at=tags["closures:" + which])
                                 break
                 else:
-                    out, sigs = solve_observed(P, op[1])
-                    outr, sigsr = solve_observed(ref["P"], op[1])
+                    x0 = np.ones(n) if len(op) > 2 else None
+                    out, sigs = solve_observed(P, op[1], x0)
+                    outr, sigsr = solve_observed(ref["P"], op[1], x0)
                     if op[1] != "auto":
                         if sigs != sigsr:
                             fails.add("backend-model-differs-from-constant-model", method=op[1], values=self.current(idx),
